@@ -94,7 +94,11 @@ def run(ctx):
 
     sruns = [storage_events.compact(r) for r in vlib.split_runs(ev)]
     sruns = [r for r in sruns if r]
-    n2 = tracecheck.validate_runs(ctx, sruns, "faults_storage", "StorageTrace", "StorageTrace_crash.cfg", owns=sc.owns_c01, key=sc.storage_key, timeout=600, max_rounds=15)
+    # the quiescent end of a fault run (storage healed, new writer, commit, collections until nothing is left to
+    # delete) is judged here too: exactly the committed files are left and the managed list matches them - a failed
+    # delete must leave the file managed, so that a later collection removes it (mechanism 4 of the property)
+    owns = lambda why, evt, r: sc.owns_c01(why, evt, r) or (bool(r.rejected) and evt.get("e") == "end")
+    n2 = tracecheck.validate_runs(ctx, sruns, "faults_storage", "StorageTrace", "StorageTrace_crash.cfg", owns=owns, key=sc.storage_key, timeout=600, max_rounds=15)
     log(f"[T] {len(sruns)} storage traces of fault runs, {n2} accepted by StorageTrace (crash invariants after every event)")
     ctx.cov["traces_validated_against_impl"] += n2
     f = next((r for r in runs if nontrivial(r)), None)
